@@ -457,12 +457,12 @@ func VerifC01Calls() {
 	a := num(verifFloat64())
 	env := verifEnv{vars: map[string]value{"a": a}}
 	progs := []string{
-		`function f(x, y) { x = x + 1; return y } BEGIN { r = f(a); s = a }`,                                // missing arg is null; scalar by value
-		`function f(arr, v) { arr["k"] = v } BEGIN { f(g, a); r = g["k"] }`,                                   // array by reference
+		`function f(x, y) { x = x + 1; return y } BEGIN { r = f(a); s = a }`,                                                  // missing arg is null; scalar by value
+		`function f(arr, v) { arr["k"] = v } BEGIN { f(g, a); r = g["k"] }`,                                                   // array by reference
 		`function f(n,  loc) { if (n > 0) { loc[n] = 1; f(n - 1) }; c = 0; for (k in loc) c++; return c } BEGIN { r = f(2) }`, // fresh local array per call
-		`function f(n) { if (n <= 0) return a; return f(n - 1) } BEGIN { r = f(3) }`,                          // recursion returns through frames
-		`function f(x) { x[1] = a } function g(y) { f(y) } BEGIN { g(arr); r = arr[1] }`,                      // array forwarded through two calls
-		`function f(x, y, z) { return x } BEGIN { r = f(a, 1) ; s = f() }`,                                    // fewer arguments than parameters
+		`function f(n) { if (n <= 0) return a; return f(n - 1) } BEGIN { r = f(3) }`,                                          // recursion returns through frames
+		`function f(x) { x[1] = a } function g(y) { f(y) } BEGIN { g(arr); r = arr[1] }`,                                      // array forwarded through two calls
+		`function f(x, y, z) { return x } BEGIN { r = f(a, 1) ; s = f() }`,                                                    // fewer arguments than parameters
 	}
 	pi := verifIntRange(0, len(progs)-1)
 	p, err := verifExecEnv(progs[pi], env)
